@@ -631,9 +631,9 @@ def exhaustive(X):
         if ck.violations:
             return
     # a sample of the next length, and a sample of everything under ASan+UBSan
-    nxt = [b"".join(ck.rng.choice(SYMS) for _ in range(n1 + 1 + (j % 3))) for j in range(6000 if ck.quick else 60000)]
+    nxt = [b"".join(ck.rng.choice(SYMS) for _ in range(n1 + 1 + (j % 3))) for j in range(6000 if ck.quick else 40000)]
     examine(X, nxt, "sample-len%d-%d" % (n1 + 1, n1 + 3), modes, plain=True)
-    examine(X, ck.rng.sample(texts, min(len(texts), 4000 if ck.quick else 30000)), "exhaustive-asan-sample", modes)
+    examine(X, ck.rng.sample(texts, min(len(texts), 4000 if ck.quick else 12000)), "exhaustive-asan-sample", modes)
 
 
 FILES = [b"foo.c", b"a.h", b"dir/x.c", b"in.c", b"f", b"<built-in>", b"a b.c", b"", b"x.c"]
@@ -739,16 +739,16 @@ def random_texts(X):
             ck.sample({"random text": base[len(FIXED) + k][:160].decode("latin-1")})
     # a backslash-newline at every position of short texts, at random positions of long ones
     variants = []
-    src = base[:len(FIXED)] + rng.sample(base[len(FIXED):], 150 if ck.quick else 1500)
+    src = base[:len(FIXED)] + rng.sample(base[len(FIXED):], 150 if ck.quick else 700)
     for b in src:
-        for v, ps in lexgen.splice_variants(b, rng, every_limit=40 if ck.quick else 80, extra=2 if ck.quick else 6):
+        for v, ps in lexgen.splice_variants(b, rng, every_limit=40 if ck.quick else 60, extra=2 if ck.quick else 4):
             variants.append(v)
             for p in ps:
                 X.splicepos[min(p, 99)] = X.splicepos.get(min(p, 99), 0) + 1
     examine(X, variants, "splice-at-every-position", plain=True)
     if ck.violations:
         return
-    examine(X, rng.sample(base + variants, min(len(base) + len(variants), 3000 if ck.quick else 25000)), "asan-sample")
+    examine(X, rng.sample(base + variants, min(len(base) + len(variants), 3000 if ck.quick else 12000)), "asan-sample")
 
 
 # ============================================================================= K-B
